@@ -313,7 +313,10 @@ class FFTMTF:
             float: The MTF units calculated based on the grid size, number
                 of rays, wavelength, and F-number.
         """
+        # frequency step of the discrete Fourier transform of the PSF:
+        # 1 / (grid size x PSF pixel), with the PSF pixel wavelength x FNO / Q
+        # in microns (see FFTPSF._get_psf_units); result in cycles/mm
         Q = self.grid_size / self.num_rays
-        dx = Q / (self.wavelength * self.FNO)
+        dx = Q / (self.wavelength * 1e-3 * self.FNO * self.grid_size)
 
         return dx
